@@ -303,16 +303,16 @@ def hist_driver(case, api):
 # Part B: one cell of the call-form x function-kind product.  cell = {id, form, kind}
 BODY = "return [this, arguments.length, arguments[0], arguments[1], a, b];"
 KIND_SETUP = {
-    "decl": "function fd(a, b){ %s } var f = fd; var CT = fd; var recv = {f: f};" % BODY,
-    "expr": "var fe = function(a, b){ %s }; var f = fe; var CT = fe; var recv = {f: f};" % BODY,
-    "named": "var fn = function nm(a, b){ %s }; var f = fn; var CT = fn; var recv = {f: f};" % BODY,
-    "arrow": "var host = {mk: function(){ return (a, b) => [this, arguments.length, arguments[0], arguments[1], a, b]; }};"
+    "decl": "function fd(a, b, c){ %s } var f = fd; var CT = fd; var recv = {f: f};" % BODY,
+    "expr": "var fe = function(a, b, c){ %s }; var f = fe; var CT = fe; var recv = {f: f};" % BODY,
+    "named": "var fn = function nm(a, b, c){ %s }; var f = fn; var CT = fn; var recv = {f: f};" % BODY,
+    "arrow": "var host = {mk: function(){ return (a, b, c) => [this, arguments.length, arguments[0], arguments[1], a, b]; }};"
              " var f = host.mk(7, 8); var CT = f; var recv = {f: f};",
-    "method": "var recv = {f(a, b){ %s }}; var f = recv.f; var CT = f;" % BODY,
-    "propfn": "var recv = {f: function(a, b){ %s }}; var f = recv.f; var CT = f;" % BODY,
+    "method": "var recv = {f(a, b, c){ %s }}; var f = recv.f; var CT = f;" % BODY,
+    "propfn": "var recv = {f: function(a, b, c){ %s }}; var f = recv.f; var CT = f;" % BODY,
     "getter": "var recv = {get f(){ return [this, arguments.length, arguments[0], arguments[1], undefined, undefined]; }};"
               " var f = Object.getOwnPropertyDescriptor(recv, 'f').get; var CT = f;",
-    "bound": "function fd(a, b){ %s } var f = fd.bind(bt, 5); var CT = fd; var recv = {f: f};" % BODY,
+    "bound": "function fd(a, b, c){ %s } var f = fd.bind(bt, 5, 6); var CT = fd; var recv = {f: f};" % BODY,
     "native": "var f = Object.prototype.valueOf; var CT = f; var recv = {f: f};",
 }
 FORM_CALL = {
